@@ -45,6 +45,7 @@ def check(ck):
     c06.r06_7(ck, rule='R08.9')
     from . import c15
     c15.r15_9(ck, rule='R08.10')
+    r08_11(ck)
 
 
 def registrations(ck, registry):
@@ -565,3 +566,31 @@ def r08_8(ck, rule='R08.8'):
                        'sub-dictionary',
                        '%s merges into %s, a sub-dictionary of the current '
                        'value, in place' % (fn, A.unparse(a0)), c)
+
+
+def r08_11(ck, rule='R08.11'):
+    ck.rule(rule, "an update that names its updater carries its value under "
+            "'_value' and that value is used as it is: update.get('_value', "
+            'self.default) - never filtered by truthiness (0, False, "" and '
+            '[] are values)')
+    f = ck.fn('Store.apply_update', 'core.store')
+    upd = A.params_of(f.node)[1]
+    hit = False
+    for s2 in A.walk_no_nested(f.node):
+        if isinstance(s2, ast.Assign) and A.is_name(s2.targets[0], upd) and \
+                "'_value'" in A.unparse(s2.value):
+            hit = True
+            v = s2.value
+            ok = isinstance(v, ast.Call) and A.call_name(v) == 'get' and \
+                A.is_name(A.call_receiver(v), upd) and len(v.args) == 2 and \
+                isinstance(v.args[0], ast.Constant) and \
+                v.args[0].value == '_value' and A.unparse(
+                    v.args[1]) == 'self.default'
+            ck.require(ok, rule, f, s2,
+                       "the value is update.get('_value', self.default)",
+                       "the '_value' of an update is taken as `%s`: a falsy "
+                       'value (0, False, "", []) is replaced by the '
+                       "variable's default" % A.unparse(v), s2)
+    ck.require(hit, rule, f, "'_value' handling",
+               "apply_update unwraps {'_value': .., '_updater': ..} updates",
+               "the '_value' form of an update is no longer unwrapped")
